@@ -147,6 +147,51 @@ fn seq_text(operands: &[&str], ops: &[&str], style: u8) -> String {
     s
 }
 
+/// the Debug dump with every `(line, col)` pair erased
+fn erase_positions(d: &str) -> String {
+    let b: Vec<char> = d.chars().collect();
+    let mut out = String::new();
+    let mut i = 0;
+    while i < b.len() {
+        if b[i] == '(' {
+            // ( digits , space* digits )  with optional whitespace / newlines (pretty or compact Debug)
+            let mut j = i + 1;
+            let skip_ws = |j: &mut usize| {
+                while *j < b.len() && b[*j].is_whitespace() {
+                    *j += 1;
+                }
+            };
+            skip_ws(&mut j);
+            let d0 = j;
+            while j < b.len() && b[j].is_ascii_digit() {
+                j += 1;
+            }
+            if j > d0 && j < b.len() && b[j] == ',' {
+                j += 1;
+                skip_ws(&mut j);
+                let d1 = j;
+                while j < b.len() && b[j].is_ascii_digit() {
+                    j += 1;
+                }
+                if j > d1 {
+                    if j < b.len() && b[j] == ',' {
+                        j += 1;
+                    }
+                    skip_ws(&mut j);
+                    if j < b.len() && b[j] == ')' {
+                        out.push_str("(@)");
+                        i = j + 1;
+                        continue;
+                    }
+                }
+            }
+        }
+        out.push(b[i]);
+        i += 1;
+    }
+    out
+}
+
 impl Check for C08 {
     fn id(&self) -> &'static str {
         "C08"
@@ -156,22 +201,60 @@ impl Check for C08 {
         let max_seq = ctx.tier.pick(3usize, 4usize);
         let max_tree = ctx.tier.pick(4usize, 5usize);
         ctx.rule = format!(
-            "(1) all operator sequences e0 o1 e1 .. on en, n <= {}, over the 15 binary operators and `..`; every assignment of {} operand forms (name, literal, negative literal, call, index, range index, property, type property, postfix forms on a negative literal, chained calls, string, list literal) for n <= 2 in three spacing styles, one varied operand for larger n; the real parser's tree (hook ast) must equal the reference parser's tree, and a text one parser rejects the other must reject; (2) all expression trees with <= {} operator nodes over one operator per tier (all 16 at the two topmost levels), printed with only the necessary parentheses: the real parser must return the tree itself; (3) every subset (<= 64 per tree) of redundant parenthesis placements leaves the tree unchanged; (4) all operator pairs evaluated, bare and with either grouping parenthesised, on 13 operand triples for which the groupings print different values and on 10 triples at the edges of the 64-bit range where the grouping decides whether an intermediate result overflows; non-trivial = all",
+            "(1) all operator sequences e0 o1 e1 .. on en, n <= {}, over the 15 binary operators and `..`; every assignment of {} operand forms (name, literal, negative literal, call, index, range index, property, type property, postfix forms on a negative literal, chained calls, string, list literal) for n <= 2 in three spacing styles, one varied operand for larger n; the real parser's tree (hook ast) must equal the reference parser's tree, and a text one parser rejects the other must reject; (2) all expression trees with <= {} operator nodes over one operator per tier (all 16 at the two topmost levels), printed with only the necessary parentheses: the real parser must return the tree itself; (3) every subset (<= 64 per tree) of redundant parenthesis placements leaves the tree unchanged, as do 1..64 and selected numbers up to 5000 of nested redundant pairs; (4) all operator pairs evaluated, bare and with either grouping parenthesised, on 13 operand triples for which the groupings print different values and on 10 triples at the edges of the 64-bit range where the grouping decides whether an intermediate result overflows; non-trivial = all",
             max_seq,
             OPERANDS.len(),
             max_tree
         );
         let mut cases: Vec<Case> = vec![];
+        // set when a dump could not be read; a machinery failure at the end unless the relational
+        // comparison found a violation in the meantime
+        let unreadable_msg: std::cell::RefCell<Option<String>> = std::cell::RefCell::new(None);
         let flush = |ctx: &mut Ctx, cases: &mut Vec<Case>, this: &C08| -> Result<(), MachineryError> {
             if cases.is_empty() {
                 return Ok(());
             }
             let judged = ctx.judge(std::mem::take(cases), |c, r, o| this.oracle(c, r, o))?;
+            let mut unreadable: Option<String> = None;
             for j in &judged {
                 if j.case.mode == Mode::Ast && j.o.class == Class::Ok {
                     if let Err(e) = conv_prog_dump(&j.o.out_str()) {
-                        return Err(MachineryError(format!("cannot read the AST dump ({}): {}", e, j.o.out_str().chars().take(300).collect::<String>())));
+                        unreadable = Some(format!("cannot read the AST dump ({}): {}", e, j.o.out_str().chars().take(300).collect::<String>()));
+                        break;
                     }
+                }
+            }
+            if let Some(msg) = unreadable {
+                // The dump uses names this engine does not know (the syntax tree types changed).
+                // The relational half of the property needs no knowledge of the node kinds: all
+                // parenthesisations of one tree must give the same dump once positions are erased.
+                let mut first: std::collections::HashMap<&str, (String, &Judged)> = std::collections::HashMap::new();
+                let mut found = false;
+                for j in judged.iter().filter(|j| j.case.tag == T_TREE && j.o.class == Class::Ok) {
+                    let norm = erase_positions(&j.o.out_str());
+                    match first.get(j.case.meta.as_str()) {
+                        None => {
+                            first.insert(j.case.meta.as_str(), (norm, j));
+                        }
+                        Some((n0, j0)) => {
+                            if *n0 != norm {
+                                let mut rc = j.case.clone();
+                                rc.companion = Some(j0.case.src.clone());
+                                ctx.report(
+                                    &rc,
+                                    None,
+                                    &j.o,
+                                    "redundant-parentheses",
+                                    format!("{:?} and {:?} differ only in redundant parentheses but parse to different trees (dumps compared with positions erased)", j0.case.src, j.case.src),
+                                );
+                                found = true;
+                                break;
+                            }
+                        }
+                    }
+                }
+                if !found && unreadable_msg.borrow().is_none() {
+                    *unreadable_msg.borrow_mut() = Some(msg);
                 }
             }
             Ok(())
@@ -274,6 +357,28 @@ impl Check for C08 {
             }
         }
         flush(ctx, &mut cases, self)?;
+        // (3b) any number of redundant parentheses: n pairs around a name, around a whole operation
+        // and around its right operand leave the tree unchanged (n up to 64, then selected sizes)
+        let mut depths: Vec<usize> = (1..=64).collect();
+        depths.extend([100, 128, 199, 200, 201, 255, 256, 257, 500, 1000, 5000]);
+        for &n in &depths {
+            let (o, cl) = ("(".repeat(n), ")".repeat(n));
+            for (text, expected) in [
+                (format!("x := {}a{}\n", o, cl), "[(declare (var x) (var a))]".to_string()),
+                (format!("x := {}a + b{}\n", o, cl), "[(declare (var x) (+ (var a) (var b)))]".to_string()),
+                (format!("x := a * {}b + c{}\n", o, cl), "[(declare (var x) (* (var a) (+ (var b) (var c))))]".to_string()),
+                (format!("x := {}a{} + {}b{}\n", o, cl, o, cl), "[(declare (var x) (+ (var a) (var b)))]".to_string()),
+            ] {
+                let mut c = Case::new(text, T_TREE, expected);
+                c.mode = Mode::Ast;
+                c.no_ref = true;
+                cases.push(c);
+            }
+            if n <= 1000 {
+                cases.push(Case::new(format!("a := 2\nb := 3\nc := 4\nprint(a * {}b + c{})\nprint({}a{} - {}b{} - c)\n", o, cl, o, cl, o, cl), T_EVAL, format!("eval under {} redundant parentheses", n)));
+            }
+        }
+        flush(ctx, &mut cases, self)?;
         // (4) evaluation-level reading
         let triples: [(&str, &str, &str); 13] = [("7", "3", "2"), ("2", "2", "3"), ("-7", "3", "-2"), ("1", "0", "1"), ("5", "5", "1"), ("true", "true", "true"), ("true", "true", "false"), ("true", "false", "true"), ("true", "false", "false"), ("false", "true", "true"), ("false", "true", "false"), ("false", "false", "true"), ("false", "false", "false")];
         for o1 in &OPS {
@@ -313,12 +418,32 @@ impl Check for C08 {
             }
         }
         flush(ctx, &mut cases, self)?;
+        if let Some(msg) = unreadable_msg.borrow().clone() {
+            if ctx.violation_count == 0 {
+                return Err(MachineryError(msg));
+            }
+        }
         ctx.extra.insert(
             "bounds".into(),
             json!({"operators": OPS.len(), "max_sequence_length": max_seq, "operand_forms": OPERANDS.len(), "sequences": n_seq,
                    "max_tree_operator_nodes": max_tree, "trees": n_trees, "redundant_paren_subsets_cap": 64}),
         );
         Ok(())
+    }
+
+    fn replay_group(&self, c: &Case, pool: &crate::subject::Pool) -> Result<Option<Verdict>, MachineryError> {
+        let base = match &c.companion {
+            Some(b) => b.clone(),
+            None => return Ok(None),
+        };
+        let reqs = [crate::subject::Req { mode: Mode::Ast, label: "case.sd", src: &base }, crate::subject::Req { mode: Mode::Ast, label: "case.sd", src: &c.src }];
+        let o = pool.run(&reqs)?;
+        println!("companion: {:?} -> {}", base, o[0].out_str().trim());
+        println!("variant:   {:?} -> {}", c.src, o[1].out_str().trim());
+        if o[0].class == o[1].class && erase_positions(&o[0].out_str()) == erase_positions(&o[1].out_str()) {
+            return Ok(Some(Verdict::Pass));
+        }
+        Ok(Some(viol("redundant-parentheses", format!("{:?} and {:?} differ only in redundant parentheses but parse to different trees", base, c.src))))
     }
 
     fn oracle(&self, c: &Case, r: &RefOutcome, o: &Outcome) -> Verdict {
